@@ -464,8 +464,12 @@ def random_instance(args):
     from autoarray.structures.triangles.array import ArrayTriangles
 
     seed, k = args
-    rng = np.random.default_rng([seed, k, 20])
-    fam = ("coords", "coords", "limits-coord", "limits-array", "free", "irregular")[k % 6]
+    if k < 0:  # the additional irregular vertex/index arrays
+        rng = np.random.default_rng([seed, -k, 21])
+        fam = "irregular"
+    else:
+        rng = np.random.default_rng([seed, k, 20])
+        fam = ("coords", "coords", "limits-coord", "limits-array", "free", "irregular")[k % 6]
     g = {"kind": "rand", "seed": seed, "k": k, "family": fam}
     base = {"p": "C20", "g": g, "path": []}
     side = SIDES[int(rng.integers(0, len(SIDES)))] if rng.random() < 0.5 else float(rng.uniform(0.05, 3.0))
@@ -753,11 +757,11 @@ def run(ctx):
     quick = ctx.quick
     maxlenup, maxlenobs, maxlensel, selallmax = (8 if quick else 12), 4, 16, 4
     if quick:
-        runs, nrand = [([(2, 1), (1, 3)], [(4, 2, 4, 4), (3, 2, 6, 2)], 3)], 240
+        runs, nrand, nirr = [([(2, 1), (1, 3)], [(4, 2, 4, 4), (3, 2, 6, 2)], 3)], 240, 160
     else:
         # (families, irregular-array families, calls per behaviour): deep behaviours on <=2 triangles in (-3..3)^2 and <=3 in
         # (-1..1)^2, every single call on every set of <=3 triangles in (-2..2)^2
-        runs, nrand = [([(3, 2), (1, 3)], [(3, 3, 4, 4), (5, 2, 4, 4), (3, 3, 6, 2)], 3), ([(2, 3)], [(3, 3, 5, 2)], 1)], 2400
+        runs, nrand, nirr = [([(3, 2), (1, 3)], [(3, 3, 4, 4), (5, 2, 4, 4), (3, 3, 6, 2)], 3), ([(2, 3)], [(3, 3, 5, 2)], 1)], 2400, 1600
     ctx.bounds = {"machine_runs_(families_(range,max_triangles),irregular_array_families_(gx,gy,vertices,max_triangles),calls_per_behaviour)": runs,
                   "flipped": [False, True],
                   "up_samplings": f"0..{MAXLEVEL}", "up/nbr_on_sets_up_to": maxlenup, "containment_on_sets_up_to": maxlenobs,
@@ -766,7 +770,7 @@ def run(ctx):
                   "irregular_arrays": "every array of nv distinct grid points with 2..nt non-degenerate triangles using all of them; neighborhood "
                                       "and (sets <= 16) its neighbourhood; realised directly / via with_vertices / via for_indexes "
                                       + ("(one way per array, by turn)" if quick else "(all three ways)"),
-                  "random_instances": nrand, "sides": SIDES + ["uniform(0.05,3)"], "offsets": OFFSETS + ["uniform(-3,3)"],
+                  "random_instances": nrand, "additional_random_irregular_arrays_(3..8_triangles)": nirr, "sides": SIDES + ["uniform(0.05,3)"], "offsets": OFFSETS + ["uniform(-3,3)"],
                   "tolerance_fine_units": TOL}
     t0 = time.time()
     merged, nbeh = {}, 0
@@ -806,8 +810,8 @@ def run(ctx):
     groups.sort(key=lambda g: (len(g[0]), g[0], g[1], g[2], g[3]))
     hows = None if quick else REALISATIONS
     batch = 1200
-    ks = list(range(nrand))
-    rand_batches = [ks[b : b + 1000] for b in range(0, nrand, 1000)]
+    ks = list(range(nrand)) + [-(j + 1) for j in range(nirr)]
+    rand_batches = [ks[b : b + 1000] for b in range(0, len(ks), 1000)]
     nbatches = max(-(-len(groups) // batch), len(rand_batches))
     for b in range(nbatches):
         ta = time.time()
@@ -828,7 +832,7 @@ def run(ctx):
         t_valid += time.time() - tb
     ctx.replayed = nbeh_distinct
     ctx.note(f"phases: TLC machine {t1 - t0:.0f}s, replay into the implementation {t_replay:.0f}s, trace validation {t_valid:.0f}s")
-    ctx.note(f"{len(groups)} initial inputs, {nbeh_distinct} distinct behaviours ({nbeh} enumerated) replayed -> {nb} records; {nrand} random instances -> {nrec} records; "
+    ctx.note(f"{len(groups)} initial inputs, {nbeh_distinct} distinct behaviours ({nbeh} enumerated) replayed -> {nb} records; {nrand} + {nirr} (irregular arrays) random instances -> {nrec} records; "
              f"largest lattice residual seen in the exhaustive part {maxres:.2e} fine units (tolerance {TOL})")
     ctx.assumptions = [
         "triangles are compared as vertex sets on the instance's fine lattice; a vertex further than 1e-9 fine units from the lattice is a rejection (on-lattice clause)",
